@@ -41,7 +41,7 @@ MANIFEST = {
             "virtual-time advance: interval/window, a fresh symbolic pool state per period, Buffer writes "
             "(0..2 per period, symbolic values) and run length k <= 3 (thorough 5) periods; z3 proves on "
             "every path that exactly one step happens per period, every sleep equals the interval, the "
-            "LinearController rate bound holds over every window, Buffer forwards only at boundaries.",
+            "LinearController rate bound holds over every window, Buffer forwards only at boundaries. Every path's witness is additionally run under the real trio scheduler with a virtual clock (MockClock).",
     "note": "the sleep stub IS the clock contract (suspends exactly d virtual seconds, only checkpoint); "
             "trio's real scheduler and clock drift are outside; floats are exact reals",
     "design_ref": "DESIGN.md §3 C09",
